@@ -124,6 +124,8 @@ def _closure_of_operand(rec, o, depth=6):
     """the closure def a caller operand denotes (`move _5` with `_5 = closure-aggregate`, through moves)"""
     if "closure" in o:
         return o["closure"]
+    if "fn" in o:
+        return o["fn"]  # a fn item passed by value (`self.with_x(Self::inner)`)
     p = o.get("m") or o.get("c")
     if not p or len(p) != 1 or depth == 0:
         return None
@@ -137,7 +139,7 @@ def _closure_of_operand(rec, o, depth=6):
                 r = st["r"]
                 if r["rv"] == "agg" and isinstance(r["kind"], dict) and "closure" in r["kind"]:
                     found = r["kind"]["closure"]
-                elif r["rv"] == "use":
+                elif r["rv"] in ("use", "cast"):
                     found = _closure_of_operand(rec, r["o"], depth - 1)
     return found if n == 1 else None
 
